@@ -1585,8 +1585,10 @@ impl RustGenerator {
                         "let len = if array.elem_size_words == 0 { 0usize } else { array.data.len() / array.elem_size_words };",
                     )?;
                     writer.line("let index_value = word_to_f64(index_word);")?;
+                    // `as i64` saturates (+inf -> i64::MAX, -inf -> i64::MIN, NaN -> 0), exactly like the VM's
+                    // GetArrayElem / SetArrayElem and WASM's `i64.trunc_sat_f64_s`: +inf selects the last element.
                     writer.line(
-                        "let index = if len == 0 { 0usize } else if !index_value.is_finite() { 0usize } else { (index_value as i64).clamp(0, (len - 1) as i64) as usize };",
+                        "let index = if len == 0 { 0usize } else { (index_value as i64).clamp(0, (len - 1) as i64) as usize };",
                     )?;
                     writer.line(format!("if len == 0 {{ {dest}.fill(0); }} else {{"))?;
                     writer.indented(1, |writer| {
@@ -1624,8 +1626,10 @@ impl RustGenerator {
                         "let len = if array.elem_size_words == 0 { 0usize } else { array.data.len() / array.elem_size_words };",
                     )?;
                     writer.line("let index_value = word_to_f64(index_word);")?;
+                    // `as i64` saturates (+inf -> i64::MAX, -inf -> i64::MIN, NaN -> 0), exactly like the VM's
+                    // GetArrayElem / SetArrayElem and WASM's `i64.trunc_sat_f64_s`: +inf selects the last element.
                     writer.line(
-                        "let index = if len == 0 { 0usize } else if !index_value.is_finite() { 0usize } else { (index_value as i64).clamp(0, (len - 1) as i64) as usize };",
+                        "let index = if len == 0 { 0usize } else { (index_value as i64).clamp(0, (len - 1) as i64) as usize };",
                     )?;
                     writer.line("if len != 0 {")?;
                     writer.indented(1, |writer| {
